@@ -954,6 +954,34 @@ pub fn stiff(args: &[String]) {
             k += 1;
         } } }
     }
+    // a start off the slow manifold, away from the origin of the time axis: the transient of rate 1e8 .. 1e10 needs first steps of a few
+    // ulp(x0).  Where Radau resolves it (Success, error at the tolerance scale) BDF has to as well.
+    {
+        let mut k = 0;
+        for (x0, ex, rtol) in [(10.0, 10.0, 1e-6), (10.0, 10.0, 1e-9), (1000.0, 8.0, 1e-7), (0.0, 10.0, 1e-9)] { for back in [false, true] {
+            let atol = rtol * 1e-3;
+            let sign = if back { -1.0 } else { 1.0 };
+            let xend = x0 + sign;
+            let mut res: Vec<(Method, String, f64, usize)> = vec![];
+            for method in [Method::RADAU, Method::BDF] {
+                let p = PR { lam: vec![10f64.powf(ex)], sign, user_jac: true, big: 0.0 };
+                let y0 = [x0.cos() + 1.0];
+                let mut o = Options::builder().method(method).rtol(rtol).atol(atol).build();
+                o.max_steps = Some(50_000);
+                match catch_unwind(AssertUnwindSafe(|| solve_ivp(&p, x0, xend, &y0, o))) {
+                    Ok(Ok(s)) => { let e = (s.y.last().unwrap()[0] - s.t.last().unwrap().cos()).abs(); res.push((method, format!("{:?}", s.status), e, s.nstep)); }
+                    _ => res.push((method, "fails".into(), f64::NAN, 0)),
+                }
+            }
+            let mut why = String::new();
+            let radau_ok = res[0].1 == "Success" && res[0].2 <= 1e3 * rtol;
+            if radau_ok && !(res[1].1 == "Success" && res[1].2 <= 1e3 * rtol) {
+                why = format!("y' = -+1e{}(y - cos t) - sin t from x0 = {} to {}, y0 = cos x0 + 1, rtol {:e}: Radau ends {} after {} steps (error {:.1e}), BDF ends {} after {} steps (error {:.1e})", ex, x0, xend, rtol, res[0].1, res[0].3, res[0].2, res[1].1, res[1].3, res[1].2);
+            }
+            r14(310000 + k, "transient-away-from-origin", Method::BDF, "c14-bdf-start-below-time-resolution", &why, &format!("\"x0\":{},\"xend\":{},\"rate\":1e{},\"rtol\":{},\"radau\":\"{}\",\"bdf\":\"{}\",\"bdf_steps\":{},", x0, xend, ex, jnum(rtol), res[0].1, res[1].1, res[1].3));
+            k += 1;
+        } }
+    }
     // the same test equation around a large NEGATIVE slow solution (-1e9 .. -3e9): the finite-difference increment must follow
     // |y_j|, otherwise it is absorbed, the Jacobian column vanishes and the stiff solvers fall back to explicit-size steps
     {
